@@ -252,6 +252,8 @@ def xliqLine (s : HistState) (t : List String) : Option String :=
     | some _ =>
       if auth = 2 then pure "err AccountNotSigner"
       else if auth = 1 then pure "err MissingOrInvalidDelegate"
+      else if auth = 4 then pure "err ConstraintAddress"   -- the position belongs to another pool (C15)
+      else if auth = 3 then pure "err ConstraintRaw"       -- a stranger holding one token of ANOTHER mint (C04)
       else
         let big := U128_MAX
         match histStep { s with vaultA := big, vaultB := big } (.modify id liq inc) with
@@ -300,6 +302,8 @@ def xliqtLine (s : HistState) (t : List String) : Option String :=
     | some pos =>
       if authN = 2 then pure "err AccountNotSigner"
       else if authN = 1 then pure "err MissingOrInvalidDelegate"
+      else if authN = 4 then pure "err ConstraintAddress"   -- the position belongs to another pool (C15)
+      else if authN = 3 then pure "err ConstraintRaw"       -- a stranger holding one token of ANOTHER mint (C04)
       else if s.pool.price < minP || s.pool.price > maxP then pure "err PriceSlippageOutOfBounds"
       else
         match estimateMaxLiquidity s.pool.price pos.lower pos.upper (excludedAmount fA tA).1 (excludedAmount fB tB).1 with
@@ -452,6 +456,8 @@ def xrepoLine (s : HistState) (t : List String) : Option String :=
       if newLiq = 0 then pure "err LiquidityZero"
       else if auth = 2 then pure "err AccountNotSigner"
       else if auth = 1 then pure "err MissingOrInvalidDelegate"
+      else if auth = 4 then pure "err ConstraintAddress"   -- the position belongs to another pool (C15)
+      else if auth = 3 then pure "err ConstraintRaw"       -- a stranger holding one token of ANOTHER mint (C04)
       else
         let big := U128_MAX
         let s0 := { s with vaultA := big, vaultB := big }
@@ -532,12 +538,15 @@ def xposLine (s : HistState) (t : List String) : Option String :=
     let fA ← parseTFee bA mA
     let fB ← parseTFee bB mB
     let (fA, fB) := if kind == "cf" && ver = 2 then (fA, fB) else (none, none)
-    let auth := if kind == "upd" then 0 else if kind == "close" && auth ≥ 3 then 0 else auth
+    -- 5: the position belongs to another pool (close names no pool) · 6: a stranger with one token of another mint
+    let auth := if kind == "upd" && auth ≠ 5 then 0 else if kind == "close" && (auth = 3 || auth = 4 || auth = 5) then 0 else auth
     let cap := U64_MAX / 4
     match posGet s.positions id with
     | none => pure "err NoSuchPosition"
     | some pos =>
       if auth = 2 then pure "err AccountNotSigner"
+      else if auth = 5 then pure "err ConstraintHasOne"
+      else if auth = 6 then pure "err ConstraintRaw"
       else if auth = 1 then pure "err MissingOrInvalidDelegate"
       else if auth = 4 then pure "err InvalidPositionTokenAmount"
       else if kind == "upd" then
